@@ -268,11 +268,24 @@ func c19NotFoundContinues(r *core.Report) {
 		g := p.Graph(f)
 		n := 0
 		for _, e := range g.Nodes {
-			if e.Kind != core.KEdge || !e.Truth || e.Ast == nil {
+			if e.Kind != core.KEdge || e.Ast == nil {
 				continue
 			}
-			s := core.ExprStr(e.Ast)
-			if !strings.Contains(s, "NotFound") || !strings.Contains(s, "status.Code") {
+			// the edge on which the lookup is known to have answered NotFound (`code == NotFound` holding, `code != NotFound`
+			// failing, errors.Is-like helpers holding)
+			isNF := false
+			for _, fc := range e.Facts() {
+				s := core.ExprStr(fc.Expr)
+				if !strings.Contains(s, "NotFound") || !strings.Contains(s, "status.Code") {
+					continue
+				}
+				if be, isBin := core.Unparen(fc.Expr).(*ast.BinaryExpr); isBin && (be.Op == token.EQL || be.Op == token.NEQ) {
+					isNF = (be.Op == token.EQL) == fc.Truth
+				} else {
+					isNF = fc.Truth
+				}
+			}
+			if !isNF {
 				continue
 			}
 			// inside a for loop over slots?
@@ -298,6 +311,81 @@ func c19NotFoundContinues(r *core.Report) {
 			_ = info
 			r.Check(!returns, rule, fmt.Sprintf("%s#not-found@%d", f.Key, n), pos(r, e.Ast), "a slot without a block is skipped and the loop continues",
 				"the NotFound branch of the per-slot block lookup returns: the first skipped slot silently ends the stream")
+		}
+		if n == 0 {
+			// the lookup and its NotFound test sit in a helper the loop calls (getArchivedBlock / streamBlockOfSlot): there
+			// NotFound must become a non-error outcome, and the loop itself must leave only with errors
+			var loops []*ast.ForStmt
+			ast.Inspect(f.Body, func(m ast.Node) bool {
+				if fs, ok := m.(*ast.ForStmt); ok {
+					loops = append(loops, fs)
+				}
+				return true
+			})
+			inLoop := func(pos token.Pos) bool {
+				for _, fs := range loops {
+					if fs.Body.Pos() <= pos && pos < fs.Body.End() {
+						return true
+					}
+				}
+				return false
+			}
+			calledInLoop := map[*core.Func]bool{}
+			for _, cs := range p.Calls(f) {
+				if cs.Callee != nil && inLoop(cs.Call.Pos()) {
+					if h := p.ByObj[cs.Callee.Origin()]; h != nil && h.Pkg == f.Pkg && h.Body != nil {
+						calledInLoop[h] = true
+						for _, h2 := range pkgScope(p, h, 2) {
+							if h2.Lit == nil {
+								calledInLoop[h2] = true
+							}
+						}
+					}
+				}
+			}
+			for h := range calledInLoop {
+				hg := p.Graph(h)
+				for _, e := range hg.Nodes {
+					if e.Kind != core.KEdge || e.Ast == nil {
+						continue
+					}
+					isNF := false
+					for _, fc := range e.Facts() {
+						s := core.ExprStr(fc.Expr)
+						if !strings.Contains(s, "NotFound") || !strings.Contains(s, "status.Code") {
+							continue
+						}
+						if be, isBin := core.Unparen(fc.Expr).(*ast.BinaryExpr); isBin && (be.Op == token.EQL || be.Op == token.NEQ) {
+							isNF = (be.Op == token.EQL) == fc.Truth
+						} else {
+							isNF = fc.Truth
+						}
+					}
+					if !isNF || !strings.Contains(core.ExprStr(e.Ast), "NotFound") {
+						continue
+					}
+					n++
+					quiet, some := true, false
+					for x := range hg.ReachFromIncl(e, nil) {
+						if x.Kind == core.KStmt && hg.Dominates(e, x) {
+							if _, isRet := x.Ast.(*ast.ReturnStmt); isRet {
+								some = true
+								if nilErr, decided := isNilErrReturn(h, x); !decided || !nilErr {
+									quiet = false
+								}
+							}
+						}
+					}
+					loopLeavesOnlyWithErrors := true
+					for _, rn := range g.Returns() {
+						if nilErr, decided := isNilErrReturn(f, rn); inLoop(rn.Ast.Pos()) && decided && nilErr {
+							loopLeavesOnlyWithErrors = false
+						}
+					}
+					r.Check(some && quiet && loopLeavesOnlyWithErrors, rule, fmt.Sprintf("%s#not-found@%d", f.Key, n), pos(r, e.Ast), "a slot without a block is a non-error outcome of the lookup helper, and the per-slot loop ends early only with an error",
+						"the NotFound outcome of the per-slot block lookup is handed on as an error by "+h.Key+" (or the loop returns without an error): the first skipped slot ends the stream")
+				}
+			}
 		}
 		if n == 0 {
 			r.Undecided(rule, f.Key+"#not-found", posP(r, f.Pos()), "NotFound test in the per-slot loop not found")
